@@ -152,9 +152,14 @@ theorem two_worlds_same_answer (c : SiteCfg) (hc : c.forbidden = Generated.forbi
     exact ⟨hd, by unfold serve; rw [hd, e1, e2]⟩
   · have hns : secureB c.forbidden sel = false := by
       rw [hc]; simpa [secure] using hs
-    have hd : ∀ st : StatFn, dispatch c st sel = .notFound := by
-      intro st; unfold dispatch; simp [hns]
-    exact ⟨by rw [hd, hd], by unfold serve; rw [hd, hd]⟩
+    -- rejected by the filter: not-found, or (a `URL:` selector) the redirect page — either way without a look at the file system
+    have hd : ∀ st : StatFn, dispatch c st sel = if (c.url && urlSecureB c.urlForbidden sel) = true then .url else .notFound := by
+      intro st; unfold dispatch
+      by_cases hu : (c.url && urlSecureB c.urlForbidden sel) = true <;> simp [hu, hns]
+    refine ⟨by rw [hd, hd], ?_⟩
+    unfold serve
+    rw [hd, hd]
+    by_cases hu : (c.url && urlSecureB c.urlForbidden sel) = true <;> simp [hu]
 
 /-- sidecar extensions of the shipped configuration carry no separator and are at least three characters long -/
 theorem shipped_eaexts_ok : ∀ e ∈ Generated.eaexts, ExtOk e.1 := by
@@ -187,10 +192,18 @@ theorem two_worlds_same_listing (c : SiteCfg) (hc : c.forbidden = Generated.forb
 
 /-- a selector the filter rejects is answered not-found, whatever the file system holds -/
 theorem insecure_is_notfound (c : SiteCfg) (hc : c.forbidden = Generated.forbidden) (st : StatFn) (sel : Str)
-    (hs : secure sel = false) : serve c st sel = .notFound := by
+    (hs : secure sel = false) (hu : (c.url && urlSecureB c.urlForbidden sel) = false) : serve c st sel = .notFound := by
   have hns : secureB c.forbidden sel = false := by rw [hc]; simpa [secure] using hs
   unfold serve dispatch
-  simp [hns]
+  simp [hns, hu]
+
+/-- a `URL:` selector the URL handler claims is answered with the redirect page for that URL and
+    nothing else: no path is derived from it, nothing is looked up -/
+theorem url_selector_never_touches_the_file_system (c : SiteCfg) (st st' : StatFn) (sel : Str)
+    (hu : (c.url && urlSecureB c.urlForbidden sel) = true) :
+    serve c st sel = .generated (emit (urlRedirectSegs (urlOfSelector sel))) ∧ serve c st sel = serve c st' sel := by
+  have hd : ∀ s : StatFn, dispatch c s sel = .url := by intro s; unfold dispatch; simp [hu]
+  refine ⟨by unfold serve; rw [hd], by unfold serve; rw [hd, hd]⟩
 
 /-! ### non-vacuity and sharpness -/
 
